@@ -61,7 +61,9 @@ def units_of(case):
 
 def run_impl(case):
     fam, binary = case["family"], case["binary"]
-    x = bytes(case["x"]) if binary else codec.dec_str(case["x"])
+    x = bytes(case["x"]) if binary and case["family"] != "section" else codec.dec_str(case["x"])
+    if binary and case["family"] == "section":
+        x = x.encode("latin-1")  # binary section files: the same lines as bytes, one byte per character
     budget = 2 * (1 + units_of(case) + len(case.get("secs", []))) + 8
     try:
         with warnings.catch_warnings():
@@ -78,7 +80,7 @@ def run_impl(case):
                 return count_appends(BlockData, budget, lambda: BF.read(x))
             from cfinterface.data.sectiondata import SectionData
 
-            SF, _ = fsup.mk_section_file(case["secs"])
+            SF, _ = fsup.mk_section_file(case["secs"], binary=binary)
             return count_appends(SectionData, budget, lambda: SF.read(x))
     except Exception as e:
         return codec.enc_exc(e)
@@ -86,7 +88,8 @@ def run_impl(case):
 
 def request(case, obs):
     o = obs if "returned" in obs else {"returned": False, "appends": 0}
-    req = {"op": "c18", "family": case["family"], "binary": case["binary"], "x": case["x"], "obs": o}
+    # a binary section file is read line by line like a text one: the model of the text is the model of the bytes
+    req = {"op": "c18", "family": case["family"], "binary": case["binary"] and case["family"] != "section", "x": case["x"], "obs": o}
     for k in ("regs", "blocks", "secs", "linesize"):
         if k in case:
             req[k] = case[k]
@@ -178,7 +181,7 @@ def random_case(rng):
         c = c12.random_bin_case(rng)
         return {"family": "block", "binary": True, "blocks": c["blocks"], "x": c["x"]}
     c = c13.random_case(rng)
-    return {"family": "section", "binary": False, "secs": c["secs"], "x": c["x"]}
+    return {"family": "section", "binary": bool(c.get("binary")), "secs": c["secs"], "x": c["x"]}
 
 
 def corpus_cases():
